@@ -34,7 +34,7 @@ RULE = ('case = (config or composition, seed, operation sequence). non-trivial =
 ASSUMPTIONS = ['twin environments built from the same configuration with the same seed start from identical generator states']
 REQUIRED = {'quick': {'sequences': 60, 'ops': 8000, 'reads.first_after_change': 1500, 'reads.repeated': 1500,
                       'before_reset.checked': 60, 'outer.checked': 500, 'outer.no_representation': 20, 'outer.inner_read_first': 200, 'outer.representation_reassigned': 30,
-                      'stochastic_obs.sequences': 8, 'fresh.deterministic_checked': 1000}}
+                      'stochastic_obs.sequences': 8, 'fresh.deterministic_checked': 1000, 'member_state.sequences': 5}}
 
 
 def op_sequence(rng, n):
@@ -226,6 +226,27 @@ def outer_checks(ctx, make, label, ops, payload, state_ok):
                                       'outer_case', payload)
 
 
+def member_reset_factory(comp_seed):
+    """composition whose reset function returns random member states (nested boxes, doors of every status, held items):
+    states the built-in reset functions never produce, driven through the stateful interface"""
+    def make():
+        rng = gen.rng_for('C04member', comp_seed)
+        comp = workloads.Composition(rng, force_all_actions=True, dense=(comp_seed % 2 == 0))
+        counter = [0]
+
+        def reset(rng=None):
+            counter[0] += 1
+            srng = gen.rng_for('C04member_state', comp_seed, counter[0])
+            for _ in range(20):
+                st, _ = comp.member_state(srng)
+                if st is not None:
+                    workloads.steer(comp, srng, st)
+                    return st
+            raise RuntimeError('no member state')
+        return comp.build(reset)
+    return make
+
+
 def run(ctx):
     configs = compose.shipped_configs()
     with reach(ctx, [inner_env_mod.InnerEnv.reset, inner_env_mod.InnerEnv.step, inner_env_mod.InnerEnv.state.fget,
@@ -285,11 +306,40 @@ def run(ctx):
             ctx.hit('sequences')
             ctx.hit('stochastic_obs.sequences')
             outer_checks(ctx, make, f'composition#{ctx.seed * 977 + k}', ops, payload, False)
+        for k in range(ctx.pick(24, 600)):
+            if not ctx.mine(k):
+                continue
+            if ctx.out_of_time(0.95):
+                break
+            factory = member_reset_factory(ctx.seed * 31 + k)
+            seed = ctx.seed * 1000 + k
+
+            def make(factory=factory, seed=seed):
+                env = factory()
+                env.set_seed(seed)
+                return env
+            ops = op_sequence(gen.rng_for('C04ops', 'member', k), 60)
+            # many ACTUATE / PICK_N_DROP: boxes (also nested) get opened, doors opened, keys moved
+            ops = [o if not (isinstance(o, tuple) and o[0] == 'step' and i % 2) else ('step', 6 + (i % 4 == 1)) for i, o in enumerate(ops)]
+            payload = {'member_comp': ctx.seed * 31 + k, 'seed': seed, 'n_ops': 60, 'k': k}
+            run_sequence(ctx, make, f'member-state composition#{ctx.seed * 31 + k}', ops, False, payload)
+            ctx.hit('sequences')
+            ctx.hit('member_state.sequences')
             if {'repeated_read', 'step_without_read'} <= feats:
                 ctx.nontrivial(('comp', k, enc.digest(ops)))
 
 
 def replay(ctx, kind, payload):
+    if 'member_comp' in payload:
+        factory = member_reset_factory(payload['member_comp'])
+
+        def make():
+            env = factory()
+            env.set_seed(payload['seed'])
+            return env
+        ops = op_sequence(gen.rng_for('C04ops', 'member', payload['k']), payload['n_ops'])
+        run_sequence(ctx, make, 'member-state composition', ops, False, payload)
+        return
     if 'config' in payload:
         data = dict((n, d) for n, _, d in compose.shipped_configs())[payload['config']]
 
